@@ -6,7 +6,7 @@ use std::path::{Path, PathBuf};
 use proptest::strategy::{Strategy, ValueTree};
 use proptest::test_runner::{Config, RngSeed, TestRunner};
 
-use model::gen::lexing_defs;
+use model::gen::{callback_defs, lexing_defs};
 use model::prep::prepare;
 use model::set::{render_module, SubjectDef, SubjectSet};
 
@@ -63,7 +63,9 @@ fn main() {
         let def = serde_json::from_value(v["def"].clone()).expect("def in replay");
         let family = v["family"].as_str().unwrap_or("core").to_string();
         let skip_log = v["skip_log"].as_bool().unwrap_or(false);
-        defs.push(SubjectDef { family, def, skip_log });
+        let has_value = v["has_value"].as_array().map(|a| a.iter().map(|x| x.as_bool().unwrap_or(false)).collect()).unwrap_or_default();
+        let error_cb = v["error_cb"].as_bool().unwrap_or(false);
+        defs.push(SubjectDef { family, def, skip_log, has_value, error_cb });
         n_core = 0;
         shards = 1;
     }
@@ -77,7 +79,23 @@ fn main() {
         }
         total_states += p.graph.states.len();
         let skip_log = defs.len() % 2 == 0;
-        defs.push(SubjectDef { family: "core".into(), def, skip_log });
+        defs.push(SubjectDef { family: "core".into(), def, skip_log, has_value: vec![], error_cb: false });
+    }
+    // callbacks family (C13)
+    let n_cb = if from_replay.is_some() { 0 } else { (n_core / 3).max(8) };
+    let cstrat = callback_defs();
+    let mut got = 0;
+    tries = 0;
+    while got < n_cb && tries < n_cb * 30 {
+        tries += 1;
+        let (def, has_value, error_cb) = cstrat.new_tree(&mut runner).unwrap().current();
+        let Ok(p) = prepare(&def) else { continue };
+        if p.graph.states.len() > 300 {
+            continue;
+        }
+        total_states += 3 * p.graph.states.len();
+        defs.push(SubjectDef { family: "callbacks".into(), def, skip_log: false, has_value, error_cb });
+        got += 1;
     }
     let set = SubjectSet { seed, tier: tier.clone(), defs };
 
